@@ -76,6 +76,7 @@ JOBS["C11"] = [
 JOBS["C12"] = [
     H("consumers", "streamgate", "^TestC12Consumers$", {"shards": 10, "checks": 10, "timeout": 1200}, {"shards": 14, "checks": 150, "timeout": 3400}),
     I("partialcache", "internal/chain/beacon", "^TestVerifC12PartialCache$", {"shards": 4, "checks": 60, "timeout": 1200}, {"shards": 14, "checks": 1500, "timeout": 3400}),
+    H("callbackleak", "streamgate", "^TestC12CallbackLeak$", {"shards": 6, "checks": 40, "timeout": 1200}, {"shards": 14, "checks": 600, "timeout": 3400}),
 ]
 
 JOBS["C06"] = [
@@ -172,7 +173,7 @@ RULES = {
            "(outside the quantifier). Oracle over all finishers: field-wise equal groups + equal hash, threshold as proposed, share index = own entry in the group = rank of the public key (independent of listing order), g^share on the public polynomial "
            "(harness arithmetic), 6 random t-subsets recover a signature that verifies under the group key and t-1 do not, epoch 1: genesis seed = hash of the first group; reshare: same public key and chain hash, leavers keep their record; "
            "positive control: every member finishes. Non-trivial: n>=3 with a non-identity permutation or a perturbing delivery policy (first DKG); every reshare. Distinct by full case descriptor.",
-    "C12": "(a) a beacon.NewCallbackStore over {trimmed bolt, untrimmed bolt, memdb ring} with 0-3 hostile consumers attached through the real SyncChain (Send blocks for ever / sleeps 2-20 ms / fails once / context cancelled mid-send), "
+    "C12": "(leak) clients come and go through the real SyncChain in every way a stream can end (failed send or disconnect in the catch-up scan, at the hand-over with a beacon stored in between, in the live phase; gates as in C11): after a stream has returned the store must never invoke its callback for a beacon stored later (a registration left behind = a worker goroutine and a queue for ever). (a) a beacon.NewCallbackStore over {trimmed bolt, untrimmed bolt, memdb ring} with 0-3 hostile consumers attached through the real SyncChain (Send blocks for ever / sleeps 2-20 ms / fails once / context cancelled mid-send), "
            "one healthy consumer and one internal callback; then M appends with M in 1..3*CallbackWorkerQueue, forced to 2*queue+2.. in 2/3 of the cases, optionally a re-connect of the stalled client's address half-way. Oracle: every Put and Last returns "
            "(bound 2 s, re-examined for 8 s more before it counts; normal < 5 ms), the healthy consumer and the internal callback receive all M beacons in order. (b) in-package rapid state machine on partialCache: appends by 3-7 signers over a "
            "round window with 1..1000 distinct previous signatures, floods of 95-300 distinct (round, previous signature) pairs by one signer, FlushRounds. Oracle after every step: no operation by signer i removes signer j's partial from any entry; "
@@ -218,7 +219,7 @@ RULES = {
            "per case one drawn single-field perturbation (chain hash: period±1s, genesis±1, key, seed bit/extend/truncate, id; group hash: node key, index, index swap, threshold, genesis, "
            "transition, dist key, id; controls: period, catch-up, address, signature) plus one drawn permutation of the node list. Oracle: hash equal on every encoding path "
            "(proto, JSON, proto-JSON, group TOML, group proto), differs under each identified-field perturbation, unchanged by membership/threshold/transition; "
-           "UnmarshalJSON rejects a document whose chain_hash does not match. Non-trivial: chain-hash cases always; group-hash cases with >=2 nodes. Distinct by (group spec, perturbation, permutation).",
+           "UnmarshalJSON rejects a document whose chain_hash does not match, including chain_hash values that are not well-formed hex. Non-trivial: chain-hash cases always; group-hash cases with >=2 nodes. Distinct by (group spec, perturbation, permutation).",
     "C20": "rapid-generated values over the 5 schemes: groups (1..10 nodes, optional dist key / transition / seed kinds / ids, whole-second and sub-second durations), key pairs, identities, shares, chain infos, "
            "beacons with arbitrary byte strings (nil/empty prev), DKG records in all 12 statuses with/without final group+share, participants with nil/empty/non-empty signatures, nanosecond times. "
            "Paths: TOML through real files (key.Save/Load), the real bolt dkg.db (SaveCurrent/SaveFinished, close, reopen, Get*), protobuf, JSON. Oracle: field-wise semantic equality written in the harness "
